@@ -102,8 +102,12 @@ impl<'t, D: Doc> Aggregator<'t, D> for Cow<'_, MetaVarEnv<'t, D>> {
   ) -> Option<()> {
     if let Some(var) = var {
       let mut matched = nodes;
-      let skipped = matched.len().saturating_sub(skipped_anonymous);
-      drop(matched.drain(skipped..));
+      // the anonymous pattern tokens after the ellipsis stand for trailing anonymous nodes only
+      let mut to_skip = skipped_anonymous;
+      while to_skip > 0 && matched.last().is_some_and(|n| !n.is_named()) {
+        matched.pop();
+        to_skip -= 1;
+      }
       self.to_mut().insert_multi(var, matched)?;
     }
     Some(())
